@@ -636,3 +636,17 @@ def cases(rng, tier):
             yield (kind + "_parse_any", [[lat(l) for l in gen_registry(rng, kind, malformed=True)]], kind + "_malformed")
     for s in int16_cases(rng, tier):
         yield ("int16", [s], "int16")
+
+
+# ---- object-lifecycle checks (harness/lifecycle.py): .info of an address with a history equals .info of a fresh one
+from harness import lifecycle as _life
+IMPL.update(_life.IMPL)
+ORACLE.update(_life.ORACLE)
+EXACT = tuple(EXACT) + ("life",)
+RULE = RULE + " | lifecycle: observe-mutate-observe vs a fresh object (incl. .info), aliasing, failure atomicity (addr)"
+_cases_without_life = cases
+
+
+def cases(rng, tier):
+    yield from _cases_without_life(rng, tier)
+    yield from _life.cases(rng, tier, {"addr"})
